@@ -7,7 +7,7 @@ PROP = "C03"
 MACHINE = base.MACHINE
 N_QUICK = 1000
 N_THOROUGH = 40000
-KEEP = ("poll:late-poll", "poll:yield-dropped", "poll:raise-left-pending", "poll:deadlock", "poll:thread-died:poller", "poll:thread-died:other", "poll:poller-dead", "poll:harness-exc")
+KEEP = ("lost:delegate-cancelled-behind-back:PollFuture:lockstep", "poll:late-poll", "poll:yield-dropped", "poll:raise-left-pending", "poll:deadlock", "poll:thread-died:poller", "poll:thread-died:other", "poll:poller-dead", "poll:harness-exc")
 if hasattr(base, "setup"):
     setup = base.setup
 if hasattr(base, "expected_verdict"):
@@ -19,7 +19,8 @@ encode = base.encode
 
 
 def monitor(r, obs):
-    return [v for v in base.monitor(r, obs) if v["pattern"] in KEEP]
+    import poll_mon
+    return [v for v in poll_mon.monitor(r, obs) if v["pattern"] in KEEP]
 
 
 nontrivial = base.nontrivial
